@@ -789,6 +789,18 @@ func (c *cluster) snapshotOps(r *vh.Rand, round int) {
 	if nh == nil || (c.roleOf(i) != roleVoter && c.roleOf(i) != roleNonVoting) {
 		return
 	}
+	// Only on a replica that has applied something in this incarnation: a replica
+	// started with join = true (or restarted) has an empty membership until it has
+	// applied its first entries or recovered a snapshot, and an exported snapshot
+	// requested then makes the library panic ("empty membership", see
+	// demoExportOnJoiner). A linearizable read served by this host shows it is past that.
+	ctx, cancel := context.WithTimeout(context.Background(), 500*time.Millisecond)
+	_, err := nh.SyncGetShardMembership(ctx, shardID)
+	cancel()
+	if err != nil {
+		c.note("snapshot_skipped_replica_not_ready")
+		return
+	}
 	req := func(opt dragonboat.SnapshotOption, what string) uint64 {
 		ctx, cancel := context.WithTimeout(context.Background(), time.Second)
 		defer cancel()
@@ -1271,4 +1283,34 @@ func runHistory(cfg histCfg) (*histResult, error) {
 	}
 	c.noteMu.Unlock()
 	return res, nil
+}
+
+// demoExportOnJoiner shows an API call that takes the process down: an exported
+// snapshot requested on a replica that was started with join = true and has not
+// yet applied an entry or recovered a snapshot (here it never will: there is no
+// other host). node.handleSnapshot lets an exported request through although
+// nothing was applied, StateMachine.getSSMeta then panics "empty membership" on
+// the snapshot worker. Run: c01 demo-export-on-joiner
+func demoExportOnJoiner() {
+	quietLogs()
+	ex := config.GetDefaultExpertConfig()
+	ex.FS = c01hooks.NewMemFS()
+	ex.TransportFactory = &netFactory{net: newNetwork(1)}
+	nh, err := dragonboat.NewNodeHost(config.NodeHostConfig{NodeHostDir: "/demo", RTTMillisecond: 5, RaftAddress: "demo:1", Expert: ex})
+	if err != nil {
+		panic(err)
+	}
+	rc := config.Config{ReplicaID: 2, ShardID: shardID, ElectionRTT: 10, HeartbeatRTT: 1}
+	if err := nh.StartReplica(nil, true, newRecorder().factory(), rc); err != nil {
+		panic(err)
+	}
+	_ = ex.FS.MkdirAll("/demo/export", 0755)
+	for k := 0; k < 200; k++ { // until the replica is initialized (ErrShardNotReady before)
+		ctx, cancel := context.WithTimeout(context.Background(), time.Second)
+		_, err = nh.SyncRequestSnapshot(ctx, shardID, dragonboat.SnapshotOption{Exported: true, ExportPath: "/demo/export"})
+		cancel()
+		fmt.Println("SyncRequestSnapshot(Exported) on the joiner:", err)
+		time.Sleep(20 * time.Millisecond)
+	}
+	fmt.Println("no panic")
 }
